@@ -221,7 +221,7 @@ def listing_part(ctx):
                                  max_leaves=6).filter(V.faithful)
     @st.composite
     def strat(draw):
-        mds = draw(st.lists(st.dictionaries(st.sampled_from(KEYS), stored_values, max_size=3), min_size=1, max_size=4))
+        mds = draw(st.lists(st.dictionaries(st.sampled_from(KEYS), stored_values, max_size=3), min_size=1, max_size=5))
         present = [(k, v) for md in mds for k, v in md.items()]
 
         def a_filter():
@@ -236,7 +236,17 @@ def listing_part(ctx):
                 else:
                     out[draw(st.sampled_from(KEYS))] = draw(filters)
             return out
-        return (mds, a_filter(), a_filter() if draw(st.booleans()) else None)
+        first = a_filter()
+        second = None
+        if draw(st.booleans()):
+            second = a_filter()
+            # the second lookup usually filters the same key by another stored value, so that the two lookups give
+            # different answers for some recording
+            k = sorted(first)[0]
+            others = [v for kk, v in present if kk == k]
+            if others and draw(st.booleans()):
+                second = {k: draw(st.sampled_from(others))}
+        return (mds, first, second)
 
     strat = strat()
     return hyp_search(ctx, strat, lambda c: check_listing(ctx, c), ctx.pick(200, 3000), label='listing')
